@@ -33,7 +33,7 @@ structure Inv (s : TS) : Prop where
   /-- after a call returned everything still alive for the transfer is inert -/
   quietInert : ∀ k, (s.xs k).quiet = true → ∀ t, (s.tasks t).live = true → (s.tasks t).xfer = k → Inert (s.tasks t)
   quietSt : ∀ k, (s.xs k).quiet = true → (s.xs k).removed = true ∨ (s.xs k).st = .aborted ∨ (s.xs k).st = .paused ∨
-    ((s.xs k).st = .failed ∧ (s.xs k).retry = false)
+    ((s.xs k).st = .failed ∧ (s.xs k).retry = false ∧ (s.xs k).dir = .download)
   /-- everything still alive for a transfer that left the list has been cancelled -/
   removedCancelled : ∀ k, (s.xs k).removed = true → ∀ t, (s.tasks t).live = true → (s.tasks t).xfer = k →
     (s.tasks t).cancelReq = true
@@ -56,7 +56,8 @@ theorem Inv.frame {s s' : TS} (h : Inv s) (hnx : s'.nx = s.nx) (hnt : s'.nt = s.
     (hx : ∀ k, (s'.xs k).rqSlot = (s.xs k).rqSlot ∧ (s'.xs k).ttSlot = (s.xs k).ttSlot ∧
       (s'.xs k).locked = (s.xs k).locked ∧ (s'.xs k).waitFor = (s.xs k).waitFor ∧
       (s'.xs k).quiet = (s.xs k).quiet ∧ (s'.xs k).removed = (s.xs k).removed)
-    (hst : ∀ k, (s.xs k).quiet = true → (s'.xs k).st = (s.xs k).st ∧ (s'.xs k).retry = (s.xs k).retry) : Inv s' := by
+    (hst : ∀ k, (s.xs k).quiet = true → (s'.xs k).st = (s.xs k).st ∧ (s'.xs k).retry = (s.xs k).retry ∧
+      (s'.xs k).dir = (s.xs k).dir) : Inv s' := by
   have hslot : ∀ k kd, (s'.xs k).slotOf kd = (s.xs k).slotOf kd := by
     intro k kd
     cases kd <;> simp [XT.slotOf, (hx k).1, (hx k).2.1]
@@ -93,7 +94,7 @@ theorem Inv.frame {s s' : TS} (h : Inv s) (hnx : s'.nx = s.nx) (hnt : s'.nt = s.
     · exact Or.inr (h5 (Or.inr (hxf' ▸ hq)) hc)
   · intro k hq
     rw [(hx k).2.2.2.2.1] at hq
-    rw [(hx k).2.2.2.2.2, (hst k hq).1, (hst k hq).2]
+    rw [(hx k).2.2.2.2.2, (hst k hq).1, (hst k hq).2.1, (hst k hq).2.2]
     exact h.quietSt k hq
   · intro k hr t hl hxf
     obtain ⟨h1, h2, _, h4, _⟩ := htask t hl
@@ -230,7 +231,8 @@ theorem inv_taskUpdate {s : TS} (h : Inv s) (t : Nat) (tk' : Task) (x' : XT)
       x'.locked = (s.xs (s.tasks t).xfer).locked ∧ x'.waitFor = (s.xs (s.tasks t).xfer).waitFor ∧
       x'.quiet = (s.xs (s.tasks t).xfer).quiet ∧ x'.removed = (s.xs (s.tasks t).xfer).removed)
     (hq : (s.xs (s.tasks t).xfer).quiet = true →
-      x'.st = (s.xs (s.tasks t).xfer).st ∧ x'.retry = (s.xs (s.tasks t).xfer).retry) :
+      x'.st = (s.xs (s.tasks t).xfer).st ∧ x'.retry = (s.xs (s.tasks t).xfer).retry ∧
+      x'.dir = (s.xs (s.tasks t).xfer).dir) :
     Inv { s with tasks := upd s.tasks t tk', xs := upd s.xs (s.tasks t).xfer x' } := by
   refine Inv.frame h rfl rfl ?_ ?_ ?_
   · intro u hu
@@ -248,7 +250,7 @@ theorem inv_taskUpdate {s : TS} (h : Inv s) (t : Nat) (tk' : Task) (x' : XT)
   · intro k hk
     by_cases e : k = (s.tasks t).xfer
     · subst e; simp only [upd_same]; exact hq hk
-    · dsimp only; rw [upd_other _ _ e]; exact ⟨rfl, rfl⟩
+    · dsimp only; rw [upd_other _ _ e]; exact ⟨rfl, rfl, rfl⟩
 
 /-- a task only changes phase / gets cancelled -/
 theorem inv_taskOnly {s : TS} (h : Inv s) (t : Nat) (tk' : Task)
@@ -266,7 +268,7 @@ theorem inv_taskOnly {s : TS} (h : Inv s) (t : Nat) (tk' : Task)
       rw [upd_other _ _ e] at hu ⊢
       exact ⟨hu, rfl, rfl, id, fun _ => id⟩
   · intro k; exact ⟨rfl, rfl, rfl, rfl, rfl, rfl⟩
-  · intro k _; exact ⟨rfl, rfl⟩
+  · intro k _; exact ⟨rfl, rfl, rfl⟩
 
 theorem dead_of_done (tk : Task) : ({ tk with phase := .done } : Task).live = true → False := by
   simp [Task.live]
@@ -310,7 +312,7 @@ theorem inv_taskStart {s : TS} (h : Inv s) (t : Nat) : Inv (step s (.taskStart t
           refine ⟨hl, rfl, rfl, id, fun _ hls => ?_⟩
           have := hls.1
           rw [hkd] at this; cases this
-        · intro _; exact ⟨rfl, rfl⟩
+        · intro _; exact ⟨rfl, rfl, rfl⟩
       · -- initUpload
         rename_i hkd
         refine inv_taskUpdate h t _ _ ?_ ?_ ?_
@@ -383,6 +385,16 @@ theorem inv_taskEnd {s : TS} (h : Inv s) (t : Nat) (o : Outcome) : Inv (step s (
         split <;> exact ⟨rfl, rfl, rfl, rfl, rfl, rfl⟩
       · refine inv_taskUpdate h t _ _ (fun hc => (dead_of_done _ hc).elim) ?_ (fun hq => (hnq hq).elim)
         split <;> exact ⟨rfl, rfl, rfl, rfl, rfl, rfl⟩
+      · -- `failing`: the state changes, the task goes on
+        have := inv_taskUpdate h t (s.tasks t) (bump (if (s.xs (s.tasks t).xfer).st = .initializing ∨
+            (s.xs (s.tasks t).xfer).st = .uploading ∨ (s.xs (s.tasks t).xfer).st = .downloading then
+            { s.xs (s.tasks t).xfer with st := .failed, retry := false }
+            else s.xs (s.tasks t).xfer)) (fun _ => ⟨hl, rfl, rfl, id, fun _ => id⟩)
+            (by split <;> exact ⟨rfl, rfl, rfl, rfl, rfl, rfl⟩) (fun hq => (hnq hq).elim)
+        have e : upd s.tasks t (s.tasks t) = s.tasks := by
+          funext i; by_cases hi : i = t <;> simp [upd, hi]
+        rw [e] at this
+        exact this
       · refine inv_taskUpdate h t _ _ (fun hc => (dead_of_done _ hc).elim) ?_ (fun hq => (hnq hq).elim)
         split <;> exact ⟨rfl, rfl, rfl, rfl, rfl, rfl⟩
   · split
@@ -395,7 +407,8 @@ theorem inv_done_generic {s : TS} (h : Inv s) (t : Nat) (tk' : Task) (hdead : (s
     (hdead' : tk'.live = false) (x' : XT)
     (hkeep : x'.locked = (s.xs (s.tasks t).xfer).locked ∧ x'.waitFor = (s.xs (s.tasks t).xfer).waitFor ∧
         x'.quiet = (s.xs (s.tasks t).xfer).quiet ∧ x'.removed = (s.xs (s.tasks t).xfer).removed ∧
-        x'.st = (s.xs (s.tasks t).xfer).st ∧ x'.retry = (s.xs (s.tasks t).xfer).retry)
+        x'.st = (s.xs (s.tasks t).xfer).st ∧ x'.retry = (s.xs (s.tasks t).xfer).retry ∧
+        x'.dir = (s.xs (s.tasks t).xfer).dir)
     (hslot : ∀ kd u, u ≠ t → (s.xs (s.tasks t).xfer).slotOf kd = some u → x'.slotOf kd = some u) :
     Inv { s with tasks := upd s.tasks t tk', xs := upd s.xs (s.tasks t).xfer x' } := by
   have htasks : ∀ u, u ≠ t → upd s.tasks t tk' u = s.tasks u := fun u hu => upd_other _ _ hu
@@ -409,11 +422,12 @@ theorem inv_done_generic {s : TS} (h : Inv s) (t : Nat) (tk' : Task) (hdead : (s
   have hxk : ∀ k, (upd s.xs (s.tasks t).xfer x' k).locked = (s.xs k).locked ∧
       (upd s.xs (s.tasks t).xfer x' k).waitFor = (s.xs k).waitFor ∧
       (upd s.xs (s.tasks t).xfer x' k).quiet = (s.xs k).quiet ∧ (upd s.xs (s.tasks t).xfer x' k).removed = (s.xs k).removed ∧
-      (upd s.xs (s.tasks t).xfer x' k).st = (s.xs k).st ∧ (upd s.xs (s.tasks t).xfer x' k).retry = (s.xs k).retry := by
+      (upd s.xs (s.tasks t).xfer x' k).st = (s.xs k).st ∧ (upd s.xs (s.tasks t).xfer x' k).retry = (s.xs k).retry ∧
+      (upd s.xs (s.tasks t).xfer x' k).dir = (s.xs k).dir := by
     intro k
     by_cases ek : k = (s.tasks t).xfer
     · subst ek; rw [upd_same]; exact hkeep
-    · rw [upd_other _ _ ek]; exact ⟨rfl, rfl, rfl, rfl, rfl, rfl⟩
+    · rw [upd_other _ _ ek]; exact ⟨rfl, rfl, rfl, rfl, rfl, rfl, rfl⟩
   constructor
   · intro u hu
     show (upd s.tasks t tk' u).live = false
@@ -458,9 +472,10 @@ theorem inv_done_generic {s : TS} (h : Inv s) (t : Nat) (tk' : Task) (hdead : (s
     change (upd s.xs (s.tasks t).xfer x' k).quiet = true at hq
     show (upd s.xs (s.tasks t).xfer x' k).removed = true ∨ (upd s.xs (s.tasks t).xfer x' k).st = .aborted ∨
       (upd s.xs (s.tasks t).xfer x' k).st = .paused ∨
-      ((upd s.xs (s.tasks t).xfer x' k).st = .failed ∧ (upd s.xs (s.tasks t).xfer x' k).retry = false)
+      ((upd s.xs (s.tasks t).xfer x' k).st = .failed ∧ (upd s.xs (s.tasks t).xfer x' k).retry = false ∧
+        (upd s.xs (s.tasks t).xfer x' k).dir = .download)
     rw [(hxk k).2.2.1] at hq
-    rw [(hxk k).2.2.2.1, (hxk k).2.2.2.2.1, (hxk k).2.2.2.2.2]
+    rw [(hxk k).2.2.2.1, (hxk k).2.2.2.2.1, (hxk k).2.2.2.2.2.1, (hxk k).2.2.2.2.2.2]
     exact h.quietSt k hq
   · intro k hr u hl hxf
     change (upd s.tasks t tk' u).live = true at hl
@@ -479,7 +494,7 @@ theorem inv_doneCallback {s : TS} (h : Inv s) (t : Nat) : Inv (step s (.doneCall
     refine inv_done_generic h t _ ?_ ?_ _ ?_ ?_
     · simp [Task.live, hp]
     · simp [Task.live]
-    · split <;> split <;> exact ⟨rfl, rfl, rfl, rfl, rfl, rfl⟩
+    · split <;> split <;> exact ⟨rfl, rfl, rfl, rfl, rfl, rfl, rfl⟩
     · intro kd u hu hs
       cases kd <;> split <;> simp only [XT.slotOf] at hs ⊢ <;> split <;> simp_all
   · exact h
@@ -511,7 +526,7 @@ theorem cancelSlots_task (s : TS) (k t : Nat) :
     exact ⟨rfl, rfl, rfl, rfl, id, fun hm => absurd hm hn⟩
 
 theorem inv_cancelSlots {s : TS} (h : Inv s) (k : Nat) : Inv (s.cancelSlots k) := by
-  refine Inv.frame h rfl rfl ?_ (fun _ => ⟨rfl, rfl, rfl, rfl, rfl, rfl⟩) (fun _ _ => ⟨rfl, rfl⟩)
+  refine Inv.frame h rfl rfl ?_ (fun _ => ⟨rfl, rfl, rfl, rfl, rfl, rfl⟩) (fun _ _ => ⟨rfl, rfl, rfl⟩)
   intro t hl
   obtain ⟨a, b, c, d, e, _⟩ := cancelSlots_task s k t
   rw [a] at hl
@@ -523,7 +538,7 @@ theorem inv_lockUpdate {s : TS} (h : Inv s) (k : Nat) (x' : XT)
     (h1 : x'.rqSlot = (s.xs k).rqSlot) (h2 : x'.ttSlot = (s.xs k).ttSlot) (h3 : x'.quiet = (s.xs k).quiet)
     (hall : ∀ t, (s.tasks t).live = true → (s.tasks t).xfer = k → (s.tasks t).cancelReq = true ∧ t ∈ x'.waitFor)
     (hqs : (s.xs k).quiet = true → x'.removed = true ∨ x'.st = .aborted ∨ x'.st = .paused ∨
-      (x'.st = .failed ∧ x'.retry = false)) :
+      (x'.st = .failed ∧ x'.retry = false ∧ x'.dir = .download)) :
     Inv { s with xs := upd s.xs k x' } := by
   constructor
   · exact h.fresh
@@ -550,7 +565,7 @@ theorem inv_lockUpdate {s : TS} (h : Inv s) (k : Nat) (x' : XT)
   · intro j hq
     change (upd s.xs k x' j).quiet = true at hq
     show (upd s.xs k x' j).removed = true ∨ (upd s.xs k x' j).st = .aborted ∨ (upd s.xs k x' j).st = .paused ∨
-      ((upd s.xs k x' j).st = .failed ∧ (upd s.xs k x' j).retry = false)
+      ((upd s.xs k x' j).st = .failed ∧ (upd s.xs k x' j).retry = false ∧ (upd s.xs k x' j).dir = .download)
     by_cases e : j = k
     · subst e; rw [upd_same] at hq ⊢; rw [h3] at hq; exact hqs hq
     · rw [upd_other _ _ e] at hq ⊢; exact h.quietSt j hq
@@ -611,7 +626,7 @@ theorem unblock_task (s : TS) (o : Option Nat) (t : Nat) :
     · exact ⟨rfl, rfl, rfl, rfl, id⟩
 
 theorem inv_unblock {s : TS} (h : Inv s) (o : Option Nat) : Inv { s with tasks := s.unblock o } := by
-  refine Inv.frame h rfl rfl ?_ (fun _ => ⟨rfl, rfl, rfl, rfl, rfl, rfl⟩) (fun _ _ => ⟨rfl, rfl⟩)
+  refine Inv.frame h rfl rfl ?_ (fun _ => ⟨rfl, rfl, rfl, rfl, rfl, rfl⟩) (fun _ _ => ⟨rfl, rfl, rfl⟩)
   intro t hl
   obtain ⟨a, b, c, d, e⟩ := unblock_task s o t
   change (s.unblock o t).live = true at hl
@@ -623,7 +638,8 @@ theorem inv_returnUpdate {s : TS} (h : Inv s) (k : Nat) (x' : XT)
     (h1 : x'.rqSlot = (s.xs k).rqSlot) (h2 : x'.ttSlot = (s.xs k).ttSlot) (h3 : x'.locked = none)
     (h4 : x'.removed = (s.xs k).removed)
     (hall : ∀ t, (s.tasks t).live = true → (s.tasks t).xfer = k → Inert (s.tasks t))
-    (hqs : x'.removed = true ∨ x'.st = .aborted ∨ x'.st = .paused ∨ (x'.st = .failed ∧ x'.retry = false)) :
+    (hqs : x'.removed = true ∨ x'.st = .aborted ∨ x'.st = .paused ∨
+      (x'.st = .failed ∧ x'.retry = false ∧ x'.dir = .download)) :
     Inv { s with xs := upd s.xs k x' } := by
   constructor
   · exact h.fresh
@@ -650,7 +666,7 @@ theorem inv_returnUpdate {s : TS} (h : Inv s) (k : Nat) (x' : XT)
   · intro j hq
     change (upd s.xs k x' j).quiet = true at hq
     show (upd s.xs k x' j).removed = true ∨ (upd s.xs k x' j).st = .aborted ∨ (upd s.xs k x' j).st = .paused ∨
-      ((upd s.xs k x' j).st = .failed ∧ (upd s.xs k x' j).retry = false)
+      ((upd s.xs k x' j).st = .failed ∧ (upd s.xs k x' j).retry = false ∧ (upd s.xs k x' j).dir = .download)
     by_cases e : j = k
     · subst e; rw [upd_same]; exact hqs
     · rw [upd_other _ _ e] at hq ⊢; exact h.quietSt j hq
@@ -695,7 +711,8 @@ theorem inv_xfields {s : TS} (h : Inv s) (k : Nat) (x' : XT) (h1 : x'.rqSlot = (
     (h2 : x'.ttSlot = (s.xs k).ttSlot) (h3 : x'.locked = (s.xs k).locked) (h4 : x'.waitFor = (s.xs k).waitFor)
     (h5 : x'.removed = (s.xs k).removed)
     (hq : x'.quiet = true → (s.xs k).quiet = true ∧
-      (x'.removed = true ∨ x'.st = .aborted ∨ x'.st = .paused ∨ (x'.st = .failed ∧ x'.retry = false))) :
+      (x'.removed = true ∨ x'.st = .aborted ∨ x'.st = .paused ∨
+        (x'.st = .failed ∧ x'.retry = false ∧ x'.dir = .download))) :
     Inv { s with xs := upd s.xs k x' } := by
   constructor
   · exact h.fresh
@@ -722,7 +739,7 @@ theorem inv_xfields {s : TS} (h : Inv s) (k : Nat) (x' : XT) (h1 : x'.rqSlot = (
   · intro j hj
     change (upd s.xs k x' j).quiet = true at hj
     show (upd s.xs k x' j).removed = true ∨ (upd s.xs k x' j).st = .aborted ∨ (upd s.xs k x' j).st = .paused ∨
-      ((upd s.xs k x' j).st = .failed ∧ (upd s.xs k x' j).retry = false)
+      ((upd s.xs k x' j).st = .failed ∧ (upd s.xs k x' j).retry = false ∧ (upd s.xs k x' j).dir = .download)
     by_cases e : j = k
     · subst e; rw [upd_same] at hj ⊢; exact (hq hj).2
     · rw [upd_other _ _ e] at hj ⊢; exact h.quietSt j hj
@@ -741,13 +758,28 @@ theorem inv_requeue {s : TS} (h : Inv s) (k : Nat) : Inv (step s (.requeue k)) :
 theorem inv_peerFail {s : TS} (h : Inv s) (k : Nat) : Inv (step s (.peerFail k)) := by
   simp only [step]
   split
-  · exact inv_xfields h k _ rfl rfl rfl rfl rfl (fun hq => ⟨hq, Or.inr (Or.inr (Or.inr ⟨rfl, rfl⟩))⟩)
+  · rename_i hc
+    exact inv_xfields h k _ rfl rfl rfl rfl rfl (fun hq => ⟨hq, Or.inr (Or.inr (Or.inr ⟨rfl, rfl, hc.2.1⟩))⟩)
   · exact h
 
 theorem inv_peerUploadFailed {s : TS} (h : Inv s) (k : Nat) : Inv (step s (.peerUploadFailed k)) := by
   simp only [step]
   split
   · exact inv_xfields h k _ rfl rfl rfl rfl rfl (fun hq => ⟨hq, h.quietSt k hq⟩)
+  · exact h
+
+theorem inv_peerQueueStart {s : TS} (h : Inv s) (k : Nat) : Inv (step s (.peerQueueStart k)) := by
+  simp only [step]
+  split
+  · exact inv_xfields h k _ rfl rfl rfl rfl rfl (fun hq => ⟨hq, h.quietSt k hq⟩)
+  · exact h
+
+theorem inv_peerQueueEnd {s : TS} (h : Inv s) (k : Nat) : Inv (step s (.peerQueueEnd k)) := by
+  simp only [step]
+  split
+  · split
+    · exact inv_xfields h k _ rfl rfl rfl rfl rfl (fun hq => by cases hq)
+    · exact inv_xfields h k _ rfl rfl rfl rfl rfl (fun hq => ⟨hq, h.quietSt k hq⟩)
   · exact h
 
 theorem inv_add {s : TS} (h : Inv s) (x : XT)
@@ -774,7 +806,7 @@ theorem inv_add {s : TS} (h : Inv s) (x : XT)
   · intro j hq
     change (upd s.xs s.nx x j).quiet = true at hq
     show (upd s.xs s.nx x j).removed = true ∨ (upd s.xs s.nx x j).st = .aborted ∨ (upd s.xs s.nx x j).st = .paused ∨
-      ((upd s.xs s.nx x j).st = .failed ∧ (upd s.xs s.nx x j).retry = false)
+      ((upd s.xs s.nx x j).st = .failed ∧ (upd s.xs s.nx x j).retry = false ∧ (upd s.xs s.nx x j).dir = .download)
     by_cases e : j = s.nx
     · subst e; rw [upd_same, hx.2.2.2.1] at hq; cases hq
     · rw [upd_other _ _ e] at hq ⊢; exact h.quietSt j hq
@@ -832,6 +864,8 @@ theorem inv_step {s : TS} (h : Inv s) (op : Op) : Inv (step s op) := by
   | requeue k => exact inv_requeue h k
   | peerFail k => exact inv_peerFail h k
   | peerUploadFailed k => exact inv_peerUploadFailed h k
+  | peerQueueStart k => exact inv_peerQueueStart h k
+  | peerQueueEnd k => exact inv_peerQueueEnd h k
 
 theorem inv_foldl {s : TS} (h : Inv s) (ops : List Op) : Inv (ops.foldl step s) := by
   induction ops generalizing s with
@@ -1022,6 +1056,32 @@ theorem quiet_step {s : TS} (h : Inv s) {k : Nat} (hk : k < s.nx) (hq : (s.xs k)
     simp only [step]
     split
     · exact ⟨by simp only []; rw [upd_other _ _ e], hk⟩
+    · exact ⟨rfl, hk⟩
+  | peerQueueStart j =>
+    have e : k ≠ j := hne (by simpa [Op.addresses] using hn)
+    simp only [step]
+    split
+    · exact ⟨by simp only []; rw [upd_other _ _ e], hk⟩
+    · exact ⟨rfl, hk⟩
+  | peerQueueEnd j =>
+    -- a handler that found the transfer before the call returned and is resumed now: the transfer is quiet, i.e. it left
+    -- the list (not touched) or is ABORTED / PAUSED / a FAILED download (nothing the handler re-queues)
+    simp only [step]
+    split
+    · by_cases e : k = j
+      · subst e
+        split
+        · rename_i hc
+          exfalso
+          rcases h.quietSt k hq with h1 | h1 | h1 | h1
+          · rw [hc.1] at h1; cases h1
+          · rcases hc.2.2.2 with h2 | h2 <;> rw [h1] at h2 <;> cases h2
+          · rcases hc.2.2.2 with h2 | h2 <;> rw [h1] at h2 <;> cases h2
+          · rw [hc.2.2.1] at h1; cases h1.2.2
+        · exact ⟨by simp only []; rw [upd_same]; rfl, hk⟩
+      · split
+        · exact ⟨by simp only []; rw [upd_other _ _ e], hk⟩
+        · exact ⟨by simp only []; rw [upd_other _ _ e], hk⟩
     · exact ⟨rfl, hk⟩
 
 theorem quiet_foldl {s : TS} (h : Inv s) {k : Nat} (hk : k < s.nx) (hq : (s.xs k).quiet = true) (ops' : List Op)
